@@ -104,6 +104,8 @@ class Check(CheckBase):
                 res = pu.point_in_bounds([v, y], [[lo, ylo], [hi, yhi]])
                 tt = z3.RealVal("1/1000000000")
                 tag = "pibd:"
+            if isinstance(res, SymBool):
+                res = bool(res)          # a comparison returned unevaluated: decide it on this path (fork)
             assert isinstance(res, bool), "point_in_bounds must return a bool"
             run.reach(tag + str(res))
             # agreement with the tolerant checker applied per coordinate (executed symbolically too)
